@@ -19,6 +19,9 @@ DIST_CLS = dict(Cholesky=V.CholeskyVariationalDistribution, MeanField=V.MeanFiel
                 TrilNatural=V.TrilNaturalVariationalDistribution)
 DEFAULT_JITTER = 1e-6       # settings.variational_cholesky_jitter for float64
 GRID_PRIOR_JITTER = 1e-3    # GridInterpolationVariationalStrategy.prior_distribution: add_jitter(1e-3)
+# VariationalQF.tla JitArgs: jitter_val as a constructor argument (none: not given; dflt: the dtype default given explicitly)
+JIT_VALUES = dict(none=None, dflt=DEFAULT_JITTER, zero=0.0, small=0.03, large=0.25)
+LEGACY_DISTS = ("Cholesky", "Natural", "TrilNatural")      # VariationalQF.tla LegacyDists
 UNWHITENED_EVAL_PRIOR_JITTER = 1e-3   # UnwhitenedVariationalStrategy.prior_distribution: add_jitter() default (None = jitter_val, if it is ever repaired)
 
 
@@ -325,6 +328,11 @@ def inducing_qf(strat, cfg, model, vs, dist, mod, X, mode, kl_after_forward):
     if f["white"] in ("chol", "sym"):
         W = torch.linalg.cholesky(Kj) if f["white"] == "chol" else sym_sqrt(Kj)
         mu, Su = unwhiten(W, mz, m, S)
+        if cfg.get("qu_direct") is not None:
+            # a legacy checkpoint was loaded: q(u) is what the checkpoint's parameters encode in the coordinates of u (VariationalQF.tla LoadLegacy)
+            mu, Su = cfg["qu_direct"]
+            if Su is None:
+                raise ValueError("oracle: a legacy checkpoint of a point mass is not part of the model")
         xj = f["xjit"] * j
         if strat == "CiqVariationalStrategy" and dist == "Natural":
             xj = j                                                    # its NGD path adds jitter_val to Kxx once
